@@ -376,6 +376,7 @@ package bluemonday
 //@     invariant forall j int :: 0 <= j && j <= rangeindex ==> !strings.EqualFold(at(fieldsArr(rel), 0, j), token)
 
 //@ func (*bluemonday.Policy).Sanitize
+//@   sets lastStr = result
 //@   requires wfp(p)
 //@   requires[C01,C02,C03,C04,C05,C06,C07,C08,C09,C10,C11,C12,C13,C14,C16,C17,C18,C19,C20] p.initialized
 //@   requires[C16] !outFailed
@@ -911,10 +912,18 @@ package bluemonday
 //@     invariant[C18] j + 1 == n || (splits[j+1] && rcOK(elems(value), off(value) + j + 1, n - j - 1, funcs))
 
 //@ func sanitise_ugc.main
+//@   closed
+//@   modifies ghost lastStr
+//@   at-call fmt.Fprint(w, a)
+//@     assert[C15] len(a) == 1 && a[0] == box(lastStr)
 //@   at-call (*bluemonday.Policy).Sanitize(p, s)
 //@     assert[C15] p.requireNoFollow && p.requireNoFollowFullyQualifiedLinks && p.addTargetBlankToFullyQualifiedLinks && p.requireParseableURLs
 
 //@ func sanitise_html_email.main
+//@   closed
+//@   modifies ghost lastStr
+//@   at-call fmt.Fprint(w, a)
+//@     assert[C15] len(a) == 1 && a[0] == box(lastStr)
 //@   at-call (*bluemonday.Policy).Sanitize(p, s)
 //@     assert[C15] p.requireNoFollow && p.requireNoFollowFullyQualifiedLinks && p.addTargetBlankToFullyQualifiedLinks && p.requireParseableURLs
 
